@@ -240,6 +240,16 @@ func cmdC06(args []string) {
 		}
 		add(mutate(rng, st), "random-mutant")
 	}
+	// arrays with more elements than any pre-sized slice or block the parser may use (complete, cut off, nested)
+	if *exh > 0 {
+		for _, n := range []int{1023, 1024, 1025, 2047, 2049, 3000} {
+			body := bytes.Repeat([]byte(":1\r\n"), n)
+			hdr := []byte(fmt.Sprintf("*%d\r\n", n))
+			add(append(append([]byte{}, hdr...), body...), "big-array")
+			add(append(append([]byte{}, hdr...), body[:len(body)-4]...), "big-array")
+			add(append(append([]byte("*2\r\n"), append(append([]byte{}, hdr...), body...)...), "+OK\r\n"...), "big-array")
+		}
+	}
 	// classify and run
 	var riskyIdx []int
 	var riskyIn [][]byte
